@@ -645,7 +645,7 @@ func (c *vf27Cluster) runCase(idx int) {
 func TestVerif_C27(t *testing.T) {
 	r := verifkit.Start(t, "C27", "exploration")
 	defer r.Finish()
-	n := r.Pick(250, 6000)
+	n := r.Pick(250, 4000)
 	r.SetRule(fmt.Sprintf("%d seeded clusters: 3-6 nodes (real engine+replicator+policer each), REP 1-3, container = REP..all nodes (others in netmap, outside the container), 1-4 objects with independent placement orders and random non-empty initial holder sets; "+
 		"4/5 of the cases call processObject per listed object, 1/5 run the real Policer.Run worker for two storage cycles per node and round; 1/3 keep deleted copies readable until the end of the round (lazy GC). "+
 		"distinct/non-trivial = different (shape, mode, placements, initial holders) whose initial distribution missed a primary copy or that replicated at least once", n))
